@@ -135,7 +135,7 @@ def run_tlc(module, cfg, env=None, workers=16, timeout=600, mode="bfs", extra=()
     os.makedirs(meta, exist_ok=True)
     if not os.path.isabs(cfg):
         cfg = os.path.join(SPEC, cfg)
-    cmd = ["java", "-XX:+UseParallelGC", "-Xmx" + heap, "-cp", JAR, "tlc2.TLC",
+    cmd = ["java", "-XX:+UseParallelGC", "-Xmx" + heap, "-Xss64m", "-cp", JAR, "tlc2.TLC",
            "-workers", str(workers), "-metadir", meta, "-noGenerateSpecTE", "-config", cfg]
     if cont:
         cmd.append("-continue")
